@@ -754,12 +754,16 @@ def nestedIns (s : Sess) (text : Str) (style : Option Run) (comment : Option Str
   if hasBreak text then (s.newRev.1, some (Node.ins s.newRev.2 (inlineLines text style)), [])
   else trackInsert s text style false default comment false
 
+/-- `insertion_text_around`: how many characters of the insertion's own spans lie before `idx` (formatting markers
+and other virtual text between its runs are counted by the offsets, but are not part of its text) -/
+def insCharsBefore (insSp : List OSpan) (idx : Nat) : Nat :=
+  (insSp.map fun o => min (idx - o.start) o.sp.text.length).sum
+
 /-- the text of the insertion `insId` with the range `[start, start+len)` replaced by `newText` -/
 def nestedText (spans : List OSpan) (start len : Nat) (insId newText : Str) : Str :=
   let insSp := spans.filter fun o => o.sp.insId == some insId
   let full := insSp.flatMap (·.sp.text)
-  let rel := match insSp.head? with | some o => start - o.start | none => 0
-  full.take rel ++ newText ++ full.drop (rel + len)
+  full.take (insCharsBefore insSp start) ++ newText ++ full.drop (insCharsBefore insSp (start + len))
 
 /-- the edit lands inside a pending insertion: reject that insertion, insert its text - with the range replaced -
 in its place.  The insertion is looked up - and rejected - in the story `pi` the range lies in (revision ids are
